@@ -20,6 +20,20 @@ package service
 //@   ensures [supply]   ghost(supply) == old(ghost(supply))
 //@   ensures [left]     result0 ==> result1 != nil && big(result1) == balOf(source)
 //@   ensures [fail]     !result0 ==> ghost(bal) == old(ghost(bal))
+//@   # the decision and the amounts are functions of the request text and the source balance (C01)
+//@   ensures [decides]  result0 == (parsedOK(value) && parsedAmt(value) >= 0 && old(balOf(source)) >= parsedAmt(value))
+//@   ensures [moved]    result0 && source != target ==> ghost(bal) == @store(@store(old(ghost(bal)), target, old(balOf(target)) + parsedAmt(value)), source, old(balOf(source)) - parsedAmt(value))
+//@   modifies ghost(bal), ghost(supply)
+
+// The request map is visited in Go's unspecified map order: the outcome (accepted or not, balances, the text
+// that goes into the receipt) must not depend on it (C01).
+//@ func ChangeAssets
+//@   property C01
+//@   option intmode=math maporder
+//@   requires accountdb != nil && logger != nil
+//@   requires [wf] forall a common.Address :: balOf(a) >= 0
+//@   loop 0: invariant forall a common.Address :: balOf(a) >= 0
+//@   loop 0: commutes oncontinue ghost(bal)
 //@   modifies ghost(bal), ghost(supply)
 
 // ---------------------------------------------------------------------------------------------
